@@ -64,6 +64,33 @@ def scripted(ctx, n_programs):
     return mism, dist
 
 
+def shot_arithmetic(ctx, n_max):
+    """directed: the shot budget handed to a branch is EXACTLY frequency * shots for every (count, shots) pair: a first
+    measurement splits N shots into (k, N - k) (explicit `counts` of the scripted oracle), a second measurement then has
+    to receive k and N - k shots; every 1 <= k < N <= n_max"""
+    from pqv import engine
+    reqs, lines, reals = [], [], []
+    for N in range(2, n_max + 1):
+        for k in range(1, N):
+            req = {"simd": 2, "shots": N, "shots_tag": str(N), "init_tag": "absent", "init_d": None, "d": 2, "program": [
+                {"cls": 0, "modes": (), "cond": None, "params": [("k", "c", 0)]},
+                {"cls": 4, "modes": (0,), "cond": None, "params": [("outs", "c", ((0,), (1,))), ("counts", "c", (k, N - k))]},
+                {"cls": 4, "modes": (1,), "cond": None, "params": [("outs", "c", ((0,), (1,), (2,)))]}]}
+            line, extra = engine.run_real(req)
+            reqs.append(req); reals.append((line, extra)); lines.append(engine.ser_request(req))
+    outs = ctx.lean_run(lines)
+    mism = []
+    for req, (line, extra), got, pl in zip(reqs, reals, outs, lines):
+        ctx.count(pl, nontrivial=True)
+        if line != got:
+            mism.append((pl, line, got))
+        if "result" in extra:
+            msg = check_result_invariants(extra["result"], req["shots"])
+            if msg:
+                ctx.fail("shot-arithmetic:" + pl[:60], "scripted engine, explicit split: " + msg, {"request": pl, "real": line})
+    return mism
+
+
 def real_simulators(ctx, n):
     """search/tie (ii): the finite-shot clause and the shots=None chain rule on the real simulators"""
     import numpy as np
@@ -142,6 +169,7 @@ def run(ctx):
         if p.returncode != 0:
             ctx.fail("repro:" + os.path.basename(f), "pinned regression fails: " + p.stdout[-300:], {"script": f, "stdout": p.stdout[-1000:]})
     mism, dist = scripted(ctx, n_prog)
+    mism += shot_arithmetic(ctx, 60 if quick else 260)
     ctx.notes["input_distribution"] = dist
     ctx.notes["correspondence_mismatches"] = len(mism)
     fails = real_simulators(ctx, n_real)
